@@ -488,6 +488,7 @@ type Ctx struct {
 	Assume []Assumption
 	memo   map[string]bool
 	noPhi      bool
+	foldDepth  int
 	reachNoPhi map[*ssa.Function]map[*ssa.BasicBlock]bool
 	// substKey identifies the active parameter substitution (callee examined
 	// on behalf of one call site), part of the memo key
@@ -534,6 +535,36 @@ func (c *Ctx) fold(cond ssa.Value) (bool, bool) {
 		}
 		cond = u.X
 		neg = !neg
+	}
+	if ph, isPhi := cond.(*ssa.Phi); isPhi && len(c.Assume) > 0 && !c.noPhi && c.foldDepth < 4 {
+		// a condition computed earlier (ok := a || b; if ok ...): all feasible
+		// incoming edges carry the same truth value
+		c.foldDepth++
+		known, val, n := true, false, 0
+		for i, ed := range ph.Edges {
+			if !c.edgeFeasible(ph.Block().Preds[i], ph.Block()) {
+				continue
+			}
+			var v, ok bool
+			if k, isC := ed.(*ssa.Const); isC && k.Value != nil && k.Value.Kind() == constant.Bool {
+				v, ok = constant.BoolVal(k.Value), true
+			} else {
+				v, ok = c.fold(ed)
+			}
+			if !ok || (n > 0 && v != val) {
+				known = false
+				break
+			}
+			val = v
+			n++
+		}
+		c.foldDepth--
+		if known && n > 0 {
+			if neg {
+				val = !val
+			}
+			return val, true
+		}
 	}
 	if call, isCall := cond.(*ssa.Call); isCall && len(c.Assume) > 0 {
 		if v, known := c.callBool(call, 0); known {
@@ -675,6 +706,9 @@ func (c *Ctx) EstablishedFrom(fn *ssa.Function, from *ssa.BasicBlock, o Outcome,
 type state struct {
 	b    *ssa.BasicBlock
 	pred int
+	// failed: the calls whose error result is known to be non-nil on this
+	// path (the failing side of "err != nil" was taken), as a canonical key
+	failed string
 }
 
 func (c *Ctx) search(fn *ssa.Function, start *ssa.BasicBlock, startPred int, o Outcome, g Gate, stop map[*ssa.BasicBlock]bool) (bool, []string) {
@@ -684,7 +718,7 @@ func (c *Ctx) search(fn *ssa.Function, start *ssa.BasicBlock, startPred int, o O
 		via  string
 	}
 	seen := map[state]bool{}
-	root := &node{st: state{start, startPred}}
+	root := &node{st: state{b: start, pred: startPred}}
 	queue := []*node{root}
 	seen[root.st] = true
 	witness := func(n *node, tail string) []string {
@@ -715,6 +749,11 @@ func (c *Ctx) search(fn *ssa.Function, start *ssa.BasicBlock, startPred int, o O
 			if c.OnlyReturn != nil && t != c.OnlyReturn && t.Parent() == c.OnlyReturn.Parent() {
 				continue
 			}
+			if o.Kind == ErrNil && o.Idx < len(t.Results) && n.st.failed != "" {
+				if call, _ := callOf(resolvePhi(t.Results[o.Idx], b, n.st.pred)); call != nil && strings.Contains(n.st.failed, callKey(call)) {
+					continue // on this path the returned error is known to be non-nil
+				}
+			}
 			if c.exitMaySucceedWithout(fn, t, n.st.pred, o, g) {
 				return false, witness(n, fmt.Sprintf("return at %s with %s, gate %q not established", c.P.InstrPos(t), o, g.Key))
 			}
@@ -726,7 +765,7 @@ func (c *Ctx) search(fn *ssa.Function, start *ssa.BasicBlock, startPred int, o O
 			if stop != nil && stop[s] {
 				return false, witness(n, fmt.Sprintf("reaches block %d (%s) without gate %q", s.Index, c.blockPos(s), g.Key))
 			}
-			ns := state{s, predIndex(s, b)}
+			ns := state{s, predIndex(s, b), n.st.failed}
 			if !seen[ns] {
 				seen[ns] = true
 				queue = append(queue, &node{st: ns, prev: n})
@@ -746,7 +785,13 @@ func (c *Ctx) search(fn *ssa.Function, start *ssa.BasicBlock, startPred int, o O
 				if stop != nil && stop[s] {
 					return false, witness(n, fmt.Sprintf("reaches block %d (%s) without gate %q", s.Index, c.blockPos(s), g.Key))
 				}
-				ns := state{s, predIndex(s, b)}
+				failed := n.st.failed
+				for _, f := range facts {
+					if f.Kind == FErrSet && f.Call != nil && !strings.Contains(failed, callKey(f.Call)) {
+						failed += callKey(f.Call)
+					}
+				}
+				ns := state{s, predIndex(s, b), failed}
 				if !seen[ns] {
 					seen[ns] = true
 					via := ""
@@ -1695,3 +1740,5 @@ func (c *Ctx) EvalValue(fn *ssa.Function, v ssa.Value) (string, bool) {
 	}
 	return val.ExactString(), true
 }
+
+func callKey(c *ssa.Call) string { return fmt.Sprintf("<%p>", c) }
